@@ -7,6 +7,9 @@ out=${1:-$VH/seeded/MATRIX.txt}
 while IFS=$'\t' read -r patch checks; do
   [ -z "$patch" ] && continue
   case "$patch" in \#*) continue;; esac
+  # the Go build cache grows by every generated batch: trim it before the disk runs full
+  avail_gb=$(df --output=avail -BG / | tail -1 | tr -dc 0-9)
+  if [ "${avail_gb:-100}" -lt 30 ]; then GOFLAGS=-mod=mod GOTOOLCHAIN=local go clean -cache >/dev/null 2>&1; fi
   res=$(TMO=900 $VH/tools/mutant.sh $VH/$patch $checks 2>&1 | grep '^\[' | sed 's/ violation line(s)//' | tr '\n' ' ')
   echo -e "$patch\t$res" | tee -a $out.tmp
 done < $VH/tools/matrix.tsv
